@@ -80,3 +80,11 @@ Proof. apply ireach_every_schedule; vm_compute; reflexivity. Qed.
 Theorem mx_init_unlocked_bad : exists sched, let c := irun sched (mx_init_cfg false) in
   fst c = [[]; []] /\ i_slot (snd c) = 2%nat /\ i_closed (snd c) = true.
 Proof. exists [0;1;1;1;1;0;0;0]%nat. vm_compute. auto. Qed.
+
+(* A counter / gauge that is incremented AFTER the dial (upstream_connection_active in every pool's newActiveClient; the
+   ping-pong totalClientCount before its repair): the close event of a connection that the peer closes at once can be
+   handled before the increment - the value is -1 for a moment.  At quiescence it is right (pp_connect_books). *)
+Definition inc_after_dial_nonneg_statement : Prop :=
+  forall sched, 0 <= i_total (snd (irun sched (pp_connect_cfg false))).
+Theorem inc_after_dial_nonneg_refuted : ~ inc_after_dial_nonneg_statement.
+Proof. intros H. specialize (H [0;0;0;1;1;1]%nat). vm_compute in H. apply H. reflexivity. Qed.
